@@ -28,12 +28,15 @@ import (
 	"github.com/mgtv-tech/redis-GunYu/verifshim/redisd"
 	"github.com/mgtv-tech/redis-GunYu/verifshim/ref"
 	"github.com/mgtv-tech/redis-GunYu/verifshim/vnet"
+	"github.com/mgtv-tech/redis-GunYu/verifshim/vsel"
+	"github.com/mgtv-tech/redis-GunYu/verifshim/vtime"
 )
 
 const (
 	rdbTarget     = "target:6379"
 	rdbRunID      = "bbbbbbbbbbbbbbbbbbbbbbbbbbbbbbbbbbbbbbbb"
 	rdbCpName     = "redis-gunyu-checkpoint"
+	rdbBiCpName   = "redis-gunyu-checkpoint-bisync:verif0000000000000000rdb"
 	rdbSnapOffset = int64(4242) // replication offset the snapshot stands for (reader.Left())
 	rdbFltPrefix  = "flt:"      // key prefix black list
 	rdbBlackDB    = 5           // database black list
@@ -57,6 +60,23 @@ type rdbCfg struct {
 	Parallel int    `json:"parallel"` // ReplayRdbParallel
 	DbMode   string `json:"dbmode"`   // "id" | "map31" | "all0"
 	Resume   bool   `json:"resume"`   // EnableResumeFromBreakPoint (final checkpoint written to the target)
+	Policy   string `json:"policy,omitempty"`   // KeyExists: "" = replace | ignore | error
+	Bisync   bool   `json:"bisync,omitempty"`   // bidirectional replay (rdbReplayBisync, one MULTI/EXEC unit per entry)
+	PipeSize int    `json:"pipesize,omitempty"` // config.RdbPipeSize for this execution (0 = shipped value)
+}
+
+func (c rdbCfg) policy() string {
+	if c.Policy == "" {
+		return "replace"
+	}
+	return c.Policy
+}
+
+func (c rdbCfg) cpName() string {
+	if c.Bisync {
+		return rdbBiCpName
+	}
+	return rdbCpName
 }
 
 func (c rdbCfg) mapDB(db int) int {
@@ -75,11 +95,14 @@ func (c rdbCfg) outputConfig() RedisOutputConfig {
 	rc := config.RedisConfig{Addresses: []string{rdbTarget}, Type: config.RedisTypeStandalone, Otype: config.RedisTypeStandalone, Version: "7.2.0"}
 	oc := RedisOutputConfig{
 		InputName:                  "src",
-		CheckpointName:             rdbCpName,
+		CheckpointName:             c.cpName(),
 		RunId:                      rdbRunID,
+		BisyncEnabled:              c.Bisync,
+		CanTransaction:             c.Bisync,
+		ReplayMode:                 config.ReplayModeSync,
 		Redis:                      rc,
 		EnableResumeFromBreakPoint: c.Resume,
-		KeyExists:                  "replace",
+		KeyExists:                  c.policy(),
 		TargetDb:                   -1,
 		MaxProtoBulkLen:            c.BulkLen,
 		BatchCmdCount:              64,
@@ -130,6 +153,7 @@ type rdbBuilt struct {
 	File   []byte
 	Expect []*rdbExpect
 	ByKey  map[string]*rdbExpect
+	Allow  map[string]bool // "<db>/<key>" the target may hold besides the snapshot's keys (pre-populated by a check)
 }
 
 var rdbCaseCache = map[string]*ref.RDBCase{}
@@ -270,6 +294,9 @@ type rdbHooks struct {
 	Prepare   func(srv *redisd.Server)                       // before Send starts (pre-population, fault plan)
 	BeforeReq func(srv *redisd.Server, idx int, argv [][]byte) // before request idx (0-based, global) is processed
 	Feed      func(g *gate, file []byte)                     // how the bytes reach the reader (default: all, then EOF)
+	OnStart   func(cancel context.CancelFunc)                // receives the cancel function of the replay context
+	Picker    vsel.Picker                                    // decides rewritten selects with several ready cases (builds with the select transform)
+	MaxReq    int                                            // give up (Runaway) after this many target requests (0 = 300000)
 }
 
 type rdbOutcome struct {
@@ -284,6 +311,7 @@ type rdbOutcome struct {
 	EndMs     int64
 	Output    *RedisOutput
 	LeakCheck string
+	Runaway   bool // the request cap was hit: the driver killed the connections and cancelled
 }
 
 // rdbRun runs one Send to completion inside the current bubble.
@@ -299,6 +327,17 @@ func rdbRun(scn rdbScenario, built *rdbBuilt, ch *mc.Chooser, hooks *rdbHooks) *
 	}
 	old := rdb.VerifSetMaxBinEntryBuffer(max)
 	defer rdb.VerifSetMaxBinEntryBuffer(old)
+	if scn.Cfg.PipeSize > 0 {
+		oldPipe := config.RdbPipeSize
+		config.RdbPipeSize = scn.Cfg.PipeSize
+		defer func() { config.RdbPipeSize = oldPipe }()
+	}
+	vtime.Reset()
+	vsel.SetPicker(nil)
+	if hooks != nil && hooks.Picker != nil {
+		vsel.SetPicker(hooks.Picker)
+		defer vsel.SetPicker(nil)
+	}
 	if hooks != nil && hooks.Prepare != nil {
 		hooks.Prepare(srv)
 	}
@@ -316,11 +355,18 @@ func rdbRun(scn rdbScenario, built *rdbBuilt, ch *mc.Chooser, hooks *rdbHooks) *
 	}
 	ctx, cancel := context.WithCancel(context.Background())
 	defer cancel()
+	if hooks != nil && hooks.OnStart != nil {
+		hooks.OnStart(cancel)
+	}
 	done := make(chan error, 1)
 	rd := newHReader(g, rdbRunID, rdbSnapOffset, int64(len(built.File)), false)
 	go func() { done <- ro.Send(ctx, rd) }()
 
 	idx := 0
+	maxReq := 300000
+	if hooks != nil && hooks.MaxReq > 0 {
+		maxReq = hooks.MaxReq
+	}
 	for {
 		synctest.Wait()
 		select {
@@ -331,7 +377,13 @@ func rdbRun(scn rdbScenario, built *rdbBuilt, ch *mc.Chooser, hooks *rdbHooks) *
 		if out.Ended {
 			break
 		}
-		conns := srv.ParkedConns()
+		if idx > maxReq && !out.Runaway {
+			out.Runaway = true
+			cancel()
+			srv.KillConns()
+			continue
+		}
+		conns := rdbCanonConns(srv)
 		if len(conns) == 0 {
 			// nothing to do for the target and Send has not returned: only a timer can
 			// wake the tool up. Let one virtual second pass, give up after a minute.
@@ -345,7 +397,7 @@ func rdbRun(scn rdbScenario, built *rdbBuilt, ch *mc.Chooser, hooks *rdbHooks) *
 		for _, c := range conns {
 			for {
 				argv := srv.PeekParked(c)
-				if argv == nil {
+				if argv == nil || out.Ended {
 					break
 				}
 				if scn.Advance && ch != nil {
@@ -384,6 +436,26 @@ func rdbRun(scn rdbScenario, built *rdbBuilt, ch *mc.Chooser, hooks *rdbHooks) *
 	srv.PlanRef().Park = false
 	srv.Unpark()
 	return out
+}
+
+// rdbCanonConns orders the connections that have parked requests by their head
+// request (connection ids depend on which worker dialled first, the head request does
+// not; equal heads are interchangeable).
+func rdbCanonConns(srv *redisd.Server) []int {
+	conns := srv.ParkedConns()
+	if len(conns) < 2 {
+		return conns
+	}
+	head := map[int]string{}
+	for _, c := range conns {
+		var sb strings.Builder
+		for _, a := range srv.PeekParked(c) {
+			fmt.Fprintf(&sb, "%d:%s ", len(a), a)
+		}
+		head[c] = sb.String()
+	}
+	sort.SliceStable(conns, func(i, j int) bool { return head[conns[i]] < head[conns[j]] })
+	return conns
 }
 
 // ---------------------------------------------------------------------------
@@ -712,7 +784,16 @@ func rdbOracle(prefix string, scn rdbScenario, built *rdbBuilt, out *rdbOutcome)
 	// not a function of the scenario: judge in key order, name the shape coarsely)
 	restores := srv.Restores()
 	sort.SliceStable(restores, func(i, j int) bool { return restores[i].Key < restores[j].Key })
+	busy := map[string]bool{} // keys for which a RESTORE was refused with BUSYKEY (the double records those without looking at the payload)
+	for _, q := range execLog {
+		if q.Name() == "restore" && len(q.Argv) > 1 && strings.HasPrefix(q.Reply, "-BUSYKEY") {
+			busy[string(q.Argv[1])] = true
+		}
+	}
 	for _, r := range restores {
+		if r.Body == nil && !r.FooterOK && busy[r.Key] {
+			continue
+		}
 		e := built.ByKey[r.Key]
 		sh := "unknown-key"
 		if e != nil {
@@ -790,10 +871,10 @@ func rdbOracle(prefix string, scn rdbScenario, built *rdbBuilt, out *rdbOutcome)
 	}
 	for db := 0; db < 16; db++ {
 		for _, k := range srv.Keys(db) {
-			if strings.HasPrefix(k, rdbCpName) {
-				continue
+			if strings.HasPrefix(k, "redis-gunyu") || strings.HasPrefix(k, "/redis-gunyu") {
+				continue // checkpoint / bisync bookkeeping namespace
 			}
-			if !want[fmt.Sprintf("%d/%s", db, k)] {
+			if !want[fmt.Sprintf("%d/%s", db, k)] && !built.Allow[fmt.Sprintf("%d/%s", db, k)] {
 				return mc.Violation("the target holds a key the snapshot does not put there", prefix+":surplus-key", detail(map[string]interface{}{"key": k, "db": db}))
 			}
 		}
